@@ -60,9 +60,9 @@ class Plane:
         self._amplitude = np.asarray(amplitude)
         self._opd = np.asarray(opd)
 
-        if mask is None:
-            mask = np.copy(self._amplitude)
-        
+        # always work on a copy so that the caller's array is never modified
+        mask = np.copy(self._amplitude) if mask is None else np.array(mask)
+
         mask[mask != 0] = 1
         self._mask = mask
 
